@@ -224,3 +224,15 @@ def is_selection_of(fnode, expr, source_text):
         if not ok:
             return False
     return True
+
+
+def value_cases(value, atoms=()):
+    """[(expr, atoms)] of a (possibly conditional / `a or b`) value expression: the alternatives it can evaluate to, each with
+    the canonical atoms that select it."""
+    if isinstance(value, ast.IfExp):
+        return value_cases(value.body, tuple(atoms) + tuple(atoms_of(value.test, True))) + \
+            value_cases(value.orelse, tuple(atoms) + tuple(atoms_of(value.test, False)))
+    if isinstance(value, ast.BoolOp) and isinstance(value.op, ast.Or) and len(value.values) == 2:
+        return [(value.values[0], tuple(atoms) + tuple(atoms_of(value.values[0], True)))] + \
+            value_cases(value.values[1], tuple(atoms) + tuple(atoms_of(value.values[0], False)))
+    return [(value, tuple(atoms))]
